@@ -18,6 +18,9 @@ tvars == <<tid, l, stk, pend, pi, state>>
 Ev == Traces[tid][l]
 P == Data.parsed[tid]
 More == l <= Len(Traces[tid])
+(* a stream whose document could not be captured, or whose writer raised on purpose (the repository's own tests do that):
+   only the element-stack discipline of the calls is judged *)
+NoDoc == Data.nodoc[tid]
 
 TInit == tid \in 1..Len(Traces) /\ l = 1 /\ stk = <<>> /\ pend = FALSE /\ pi = 1 /\ state = "new"
 
@@ -30,23 +33,23 @@ Enter == More /\ Ev.op = "enter" /\ state = "new" /\ state' = "open" /\ UNCHANGE
 Text == More /\ Ev.op \in {"chars", "literal"} /\ state = "open" /\ stk # <<>> /\ pend' = TRUE /\ UNCHANGED <<stk, pi, state>>
 Comment == More /\ Ev.op \in {"comment", "pi"} /\ state = "open" /\ UNCHANGED <<stk, pend, pi, state>>
 Run == /\ More /\ Ev.op = "run" /\ pend /\ pend' = FALSE
-       /\ IF Ev.ws THEN pi' = pi                                   \* white-space-only: dropped on both sides
+       /\ IF Ev.ws \/ NoDoc THEN pi' = pi                          \* white-space-only: dropped on both sides
           ELSE IF Ev.dig = "*" THEN pi' = (IF pi <= Len(P) /\ P[pi][1] = "run" THEN pi + 1 ELSE pi)
           ELSE pi <= Len(P) /\ P[pi] = <<"run", Ev.dig>> /\ pi' = pi + 1
        /\ UNCHANGED <<stk, state>>
 Start == /\ More /\ Ev.op = "start" /\ state = "open" /\ ~pend
-         /\ pi <= Len(P) /\ P[pi][1] = "start" /\ P[pi][2] = Ev.name /\ AttrsMatch(Ev.attrs, P[pi][3])
+         /\ IF NoDoc THEN TRUE ELSE pi <= Len(P) /\ P[pi][1] = "start" /\ P[pi][2] = Ev.name /\ AttrsMatch(Ev.attrs, P[pi][3])
          /\ stk' = Append(stk, Ev.name) /\ pi' = pi + 1 /\ UNCHANGED <<pend, state>>
 End == /\ More /\ Ev.op = "end" /\ state = "open" /\ ~pend
        /\ stk # <<>> /\ stk[Len(stk)] = Ev.name                    \* XmlStream.endElement would raise otherwise
-       /\ pi <= Len(P) /\ P[pi] = <<"end", Ev.name>>
+       /\ IF NoDoc THEN TRUE ELSE pi <= Len(P) /\ P[pi] = <<"end", Ev.name>>
        /\ stk' = SubSeq(stk, 1, Len(stk) - 1) /\ pi' = pi + 1 /\ UNCHANGED <<pend, state>>
 (* __exit__: every element still open is closed, innermost first; the document ends there *)
 RECURSIVE ClosesOK(_, _)
 ClosesOK(s, i) == IF s = <<>> THEN i = Len(P) + 1
                   ELSE i <= Len(P) /\ P[i] = <<"end", s[Len(s)]>> /\ ClosesOK(SubSeq(s, 1, Len(s) - 1), i + 1)
-Exit == /\ More /\ Ev.op = "exit" /\ state = "open" /\ ~pend /\ Data.ok[tid]
-        /\ ClosesOK(stk, pi)
+Exit == /\ More /\ Ev.op = "exit" /\ state = "open" /\ ~pend
+        /\ IF NoDoc THEN TRUE ELSE Data.ok[tid] /\ ClosesOK(stk, pi)
         /\ state' = "closed" /\ stk' = <<>> /\ pi' = Len(P) + 1 /\ UNCHANGED pend
 
 Done == ~More /\ UNCHANGED <<stk, pend, pi, state>>
